@@ -70,6 +70,11 @@ let parse_expr (src : string) : ty * expr =
     match src.[!i] with
     | '0'..'9' | '-' -> (TInt, EConst (VInt (z_of_int (number ()))))
     | '(' -> incr i; let r = expr () in expect ')'; r
+    | '"' -> incr i; let j = !i in
+      while !i < n && src.[!i] <> '"' do incr i done;
+      if !i >= n then raise Bad;
+      let lit = String.sub src j (!i - j) in incr i;
+      (TStr, EConst (VStr (str_of_string lit)))
     | _ ->
       let id = ident () in
       if id = "" then raise Bad;
